@@ -3,6 +3,7 @@
 //   enc <fmt> <tree tokens>   build the DOM with the public API, print hex(Xml::encode(tree, fmt))
 //   rt  <fmt> <tree tokens>   dump(Xml::decode(Xml::encode(tree, fmt)))
 //   sub <hex> <k>             decode, keep only the k-th node (document order, k mod count), release the tree, dump the survivor
+//   desc <hex>                decode, then `while (first child is an element) e = e.child(0);` on the only handle, dump e
 //   deep <n> <kind>           decode a document nested n levels (0: closed, 1: closed then mismatched end tag, 2: unclosed, 3: closed around the text "x")
 // tree tokens (preorder): E <hextag> <nattr> {<hexname> <hexval>} <nchildren> children... | T <hextext>
 // dump: element  E<hextag>[<hexname>=<hexval>,...]{<flag><child> ...}   text  T<hex>
@@ -145,6 +146,16 @@ static std::string step(const Toks& t)
 		const String& tx = c.text();
 		out += " t=" + hex(*tx, tx.length());
 		return out;
+	}
+	if (op == "desc" && t.size() == 2) {
+		// walk down the first-child chain by assigning to the only handle, then a self-assignment through a reference
+		Exact d(unhex(t[1]));
+		Xml e = Xml::decode(String(d.p, (int)d.n));
+		if (!e) return "null";
+		while (e.numChildren() > 0 && !e.child(0).isText()) e = e.child(0);
+		Xml& r = e;
+		e = r;
+		return show(e);
 	}
 	if (op == "dec" && t.size() == 2) {
 		Exact d(unhex(t[1]));
